@@ -13,7 +13,7 @@ from .c02 import _chi2_tol
 
 ID = "C13"
 RULE = (
-    "Histories of 1..5 export/import cycles to real temporary files. Sources: (i) graphs loaded from generated .g2o text (the C14 grammar, "
+    "Histories of 1..5 export/import cycles to real temporary files, optionally with an in-place edit (offset / vertex / measurement / information entry) of the loaded graph between cycles. Sources: (i) graphs loaded from generated .g2o text (the C14 grammar, "
     "incl. registered custom edge types that support export), (ii) graphs built programmatically: SE2/SE3 poses, R2/R3 landmarks, odometry and "
     "landmark edges, SE3 offsets with rotation (registered as parameters or not), ids negative / > 2^63, quaternions with w<0, non-diagonal "
     "information, numbers spanning 1e-300..1e300 incl. subnormals; (iii) the same plus one piece of content the format cannot express (R^n "
@@ -49,7 +49,7 @@ def strategy_(g):
     cycles = g.choice([1, 1, 2, 3, 5])
     if src == "text":
         f = GT.gen_file(g, allow_custom=True, allow_junk=g.boolean())
-        return {"src": "text", "file": f, "cycles": cycles}
+        return {"src": "text", "file": f, "cycles": cycles, "edits": [g.choice(["none", "none", "offset", "vertex", "measurement", "information"]) for _ in range(cycles)]}
     rnd = g.rnd
     extreme = g.boolean()
     fb = GT.FileBuilder(g)
@@ -91,7 +91,14 @@ def strategy_(g):
                 if pid not in params:
                     params[pid] = _vals(g, 3, False) + g.unit_quat()
             edges.append({"t": "lm", "ids": [rnd.choice(bykind["se3"]), rnd.choice(bykind["r3"])], "z": {"k": "r3", "v": _vals(g, 3, False)}, "off": {"k": "se3", "v": list(params[pid])}, "off_id": pid, "info": fb.upper_triangle(3)[1]})
+    if edges and g.choice([False, False, True]):
+        # the same measurement listed twice (a repeated observation): two identical parallel edges are two edges
+        import copy as _copy
+
+        for _ in range(rnd.randint(1, 2)):
+            edges.insert(rnd.randrange(len(edges) + 1), _copy.deepcopy(rnd.choice(edges)))
     case = {"src": src, "verts": verts, "edges": edges, "params": {str(k): v for k, v in params.items()}, "registered": g.choice(["all", "all", "none", "some"]), "cycles": cycles, "extreme": extreme}
+    case["edits"] = [g.choice(["none", "none", "offset", "vertex", "measurement", "information"]) for _ in range(cycles)]
     if rnd.random() < 0.3:
         case["extra_params2"] = {str(rnd.randint(0, 9)): _vals(g, 2, False) + [g.angle()]}
     if src == "bad":
@@ -299,6 +306,33 @@ def files_stable(ctx, t1, t2):
     return False
 
 
+def _edit_in_place(g, what, c):
+    """Modify one stored array of the graph in place.  Returns True if something was edited."""
+    d = 0.5 + 0.25 * c
+    if what == "offset":
+        for e in g._edges:
+            if isinstance(e, gs.EdgeLandmark) and isinstance(e.offset, gs.PoseSE3):
+                np.asarray(e.offset)[0] += d
+                return True
+        return False
+    if what == "vertex":
+        if g._vertices:
+            np.asarray(g._vertices[-1].pose)[0] += d
+            return True
+        return False
+    if what == "measurement":
+        for e in g._edges:
+            if isinstance(e.estimate, np.ndarray):
+                np.asarray(e.estimate)[0] += d
+                return True
+        return False
+    if what == "information":
+        for e in g._edges:
+            np.asarray(e.information)[0, 0] += d
+            return True
+    return False
+
+
 def check(case, ctx):
     src = case["src"]
     ctx.event("source:" + src)
@@ -329,8 +363,16 @@ def check(case, ctx):
         bad = case.get("bad")
         texts = []
         cur = g0
+        edited = False
         for c in range(cycles):
             path = os.path.join(tmp, "c%d.g2o" % c)
+            ed = (case.get("edits") or ["none"] * cycles)[c]
+            if c >= 1 and ed != "none" and not bad:
+                # history: the graph that was just imported is modified IN PLACE (what a user editing a loaded graph
+                # does), then exported again: the file must carry the current numbers
+                if _edit_in_place(cur, ed, c):
+                    ctx.event("in-place-edit:" + ed)
+                    edited = True
             try:
                 cur.to_g2o(path)
             except Exception as exc:  # noqa: BLE001
@@ -352,7 +394,7 @@ def check(case, ctx):
                 return
             if chi2_compare(ctx, cur, nxt, sig + ":chi2"):
                 return
-            if c >= 2:
+            if c >= 2 and not edited:
                 if files_stable(ctx, texts[c - 1], texts[c]):
                     return
             cur = nxt
